@@ -53,12 +53,17 @@ fn gen_case(rng: &mut Rng, out: &mut Out, tier: &str) {
     for _ in 0..rng.below(3) {
         defs.push((rng.below(nex as u64) as usize, rng.below(3) as usize, 3));
     }
-    let nins = defs.len();
     let trading = if rng.chance(50) { "on" } else { "off" };
     out.line(format!(
         "init {trading} L {links} I {}",
         defs.iter().map(|(e, b, q)| format!("{e},{b},{q}")).collect::<Vec<_>>().join(" ")
     ));
+    gen_body(rng, out, tier, nex, &defs);
+}
+
+/// the event history of an `r` / `cfg` case (everything after the `init` line)
+fn gen_body(rng: &mut Rng, out: &mut Out, tier: &str, nex: usize, defs: &[(usize, usize, usize)]) {
+    let nins = defs.len();
     let len = rng.range(1, if tier == "thorough" { 40 } else { 25 });
     let mut has_pos = vec![false; nins];
     // a third of the cases start with a priced position on (almost) every instrument, so that
@@ -80,10 +85,10 @@ fn gen_case(rng: &mut Rng, out: &mut Out, tier: &str) {
             let no = rng.below(3);
             let mut reqs: Vec<String> = vec![];
             for _ in 0..nc {
-                reqs.push(gen_req_cancel(rng, nex, nins, &defs, true));
+                reqs.push(gen_req_cancel(rng, nex, nins, defs, true));
             }
             for _ in 0..no {
-                reqs.push(gen_req_open(rng, nex, nins, &defs, true));
+                reqs.push(gen_req_open(rng, nex, nins, defs, true));
             }
             out.line(format!("algo {}", reqs.join(" ")).trim_end().to_string());
         }
@@ -92,11 +97,11 @@ fn gen_case(rng: &mut Rng, out: &mut Out, tier: &str) {
         let line = match rng.below(100) {
             0..=17 => {
                 let k = rng.range(1, 3);
-                format!("ev cmd_open {}", (0..k).map(|_| gen_req_open(rng, nex, nins, &defs, false)).collect::<Vec<_>>().join(" "))
+                format!("ev cmd_open {}", (0..k).map(|_| gen_req_open(rng, nex, nins, defs, false)).collect::<Vec<_>>().join(" "))
             }
             18..=32 => {
                 let k = rng.range(1, 3);
-                format!("ev cmd_cancel {}", (0..k).map(|_| gen_req_cancel(rng, nex, nins, &defs, false)).collect::<Vec<_>>().join(" "))
+                format!("ev cmd_cancel {}", (0..k).map(|_| gen_req_cancel(rng, nex, nins, defs, false)).collect::<Vec<_>>().join(" "))
             }
             33..=44 => format!("ev trading {}", if rng.chance(50) { "on" } else { "off" }),
             45..=59 => format!("ev snap {i} {cid} 10 100 O {} {} {}", 1 + rng.below(3), rng.below(5), rng.pick(&[0, 5])),
@@ -291,6 +296,102 @@ fn gen_case_dom(rng: &mut Rng, out: &mut Out, tier: &str, id: usize) {
     }
 }
 
+// ------------------------------------------------------------------------------------------------
+// Configuration-shape family (`cfg<id>` cases, separately seeded; `r` / `d` cases stay as they are).
+// The `r` / `d` families have at most three exchanges and always ADD the first instrument of exchange
+// label e at position e. All legal at the API and inside the quantifier ("configurations"):
+//   * 4 and 5 exchanges (labels 3 = Okx, 4 = Bitfinex). `IndexedInstruments::builder().build()` SORTS
+//     exchanges / instruments / assets, so ExchangeIndex order is always ExchangeId enum order; with label
+//     4 (Bitfinex < Coinbase) the harness label differs from the ExchangeIndex for the first time, link
+//     tables of 4-5 slots with every letter, requests / filters / reconnect notices for exchanges 3, 4;
+//   * exchanges and instruments ADDED in a permuted, interleaved order (never label order): the builder
+//     normalises it - a builder or state table that kept insertion order on one side only is exposed;
+//   * forced link shapes: only the LAST index linked (`None` slots before it), only the first index
+//     missing, no usable link at all.
+fn gen_case_cfg(rng: &mut Rng, out: &mut Out, tier: &str, id: usize) {
+    let nex = match rng.below(10) {
+        0..=2 => 2,
+        3..=5 => 3,
+        6..=7 => 4,
+        _ => 5,
+    } as usize;
+    // order in which the exchanges are added: a non-identity permutation of the labels
+    let mut perm: Vec<usize> = (0..nex).collect();
+    loop {
+        for i in (1..nex).rev() {
+            let j = rng.below(i as u64 + 1) as usize;
+            perm.swap(i, j);
+        }
+        if perm.iter().enumerate().any(|(i, p)| i != *p) {
+            break;
+        }
+    }
+    let mut defs: Vec<(usize, usize, usize)> = perm.iter().map(|e| (*e, rng.below(3) as usize, 3)).collect();
+    // extra instruments at random positions AFTER the first one (the first appearance order stays `perm`
+    // only when the extra lands behind its exchange's first instrument; either way legal)
+    for _ in 0..rng.below(4) {
+        let at = 1 + rng.below(defs.len() as u64) as usize;
+        defs.insert(at, (rng.below(nex as u64) as usize, rng.below(3) as usize, 3));
+    }
+    // order of first appearance actually resulting; rotate until it is not the identity
+    let first_appearance = |defs: &[(usize, usize, usize)]| {
+        let mut order: Vec<usize> = vec![];
+        for (e, _, _) in defs.iter() {
+            if !order.contains(e) {
+                order.push(*e);
+            }
+        }
+        order
+    };
+    for _ in 0..defs.len() {
+        if first_appearance(&defs).iter().enumerate().any(|(i, e)| i != *e) {
+            break;
+        }
+        defs.rotate_left(1);
+    }
+    let mut links: Vec<char> = (0..nex)
+        .map(|_| match rng.below(100) {
+            0..=54 => 'H',
+            55..=69 => 'C',
+            70..=84 => 'U',
+            _ => 'M',
+        })
+        .collect();
+    // labels in ExchangeIndex order = ExchangeId enum order: BinanceSpot(0) < Bitfinex(4) < Coinbase(1) < Kraken(2) < Okx(3)
+    let mut order: Vec<usize> = (0..nex).collect();
+    order.sort_by_key(|l| [0, 2, 3, 4, 1][*l]);
+    match id % 8 {
+        // only the last ExchangeIndex linked, `None` slots before it
+        1 => {
+            for (pos, e) in order.iter().enumerate() {
+                links[*e] = if pos + 1 == nex { 'H' } else { 'M' };
+            }
+        }
+        // only the first ExchangeIndex missing
+        3 => {
+            for (pos, e) in order.iter().enumerate() {
+                links[*e] = if pos == 0 { 'M' } else { 'H' };
+            }
+        }
+        // no usable link at all
+        5 => {
+            for l in links.iter_mut() {
+                if *l == 'H' {
+                    *l = *rng.pick(&['C', 'M', 'U']);
+                }
+            }
+        }
+        _ => {}
+    }
+    let trading = if rng.chance(50) { "on" } else { "off" };
+    out.line(format!(
+        "init {trading} L {} I {}",
+        links.iter().collect::<String>(),
+        defs.iter().map(|(e, b, q)| format!("{e},{b},{q}")).collect::<Vec<_>>().join(" ")
+    ));
+    gen_body(rng, out, tier, nex, &defs);
+}
+
 fn generate(seed: u64, n_cases: usize, tier: &str) {
     let mut out = Out::new();
     let mut rng = Rng::new(seed);
@@ -303,6 +404,12 @@ fn generate(seed: u64, n_cases: usize, tier: &str) {
     for id in 0..n_cases / 5 {
         out.case(format!("d{id}"));
         gen_case_dom(&mut drng, &mut out, tier, id);
+    }
+    // configuration-shape family: one extra case per five random ones, own random stream
+    let mut crng = Rng::new(seed ^ 0xCF_61_C0_03_5E_ED);
+    for id in 0..n_cases / 5 {
+        out.case(format!("cfg{id}"));
+        gen_case_cfg(&mut crng, &mut out, tier, id);
     }
     out.flush();
 }
